@@ -56,6 +56,9 @@ func runTranscript(shared bool) {
 	}
 	for i := range vs {
 		v := &vs[i]
+		if v.JID != nil { // a subset of the check's vector list: keep the original identity (it seeds the encoding)
+			v.ID = *v.JID
+		}
 		// only inputs on which every handler returns (no open hang / panic class)
 		okv := v.Verdict == "accept"
 		for _, m := range v.Mech {
